@@ -21,7 +21,7 @@ func init() {
 		Prop:  "C03",
 		Title: "No panic, no hang: schemas and inputs are untrusted data",
 		Explanation: "Closed inventory of panic-capable constructs in repository code reachable (VTA call graph plus explicit reflection edges: every function value registered in a built-in CustomFuncs map literal is a callee of the reflect.Value.Call sites) from NewSchema, (*schema).NewTransform, (*transform).Read/RawRecord and rawRecord.Raw/Checksum; every construct of a kind is enumerated from SSA and must be discharged mechanically, be a reviewed (argued) entry keyed by function and caller, or be a recorded finding. " +
-			"K1 every explicit panic, one obligation per (panic site, call site of its function): the callers must establish the negation of the panic's guard (dominating branch facts, predicate summaries, up to 3 call levels), otherwise the pair must be a reviewed entry; " +
+			"K1 every explicit panic, one obligation per (panic site, call site of its function): the callers must establish the negation of the panic's guard (dominating branch facts, predicate summaries, up to 3 call levels; comparisons in linear normal form, so `n := len(s)-1; n < 0` is `len(s) < 1`; a guard that is not a plain fact about the parameters - a phi such as an optional variadic index, a range predicate, a disjunction - is specialised to the arguments of the call and refuted disjunct by disjunct; a fact read before a dominating assignment of the guarded field is carried across it by evaluating later loads to the assigned value), otherwise the pair must be a reviewed entry (a mechanically discharged call site keeps its slot of the reviewed entry; a guard computed by a `v, ok :=` helper is named by the helper's deciding branch); " +
 			"K2 every call into package reflect is classified (closed table of total operations; anything else needs its documented precondition): Kind-restricted accessors need a dominating Kind() test on the same value (also established by all callers), Type.Elem() needs a static type or the IsVariadic && index == NumIn()-1 guard, signature accessors need Kind()==Func, In/Out need an index bound, Value.Call needs statically conforming arguments, FieldByName/Elem/Int chains are evaluated on the struct definition of the toolchain in use; " +
 			"K3 every type assertion without comma-ok: dominating type switch / comma-ok / Kind() / IsErrX-style predicate on the same value (interprocedurally), or a closed set of dynamic-type sources (MakeInterface sites, sync.Pool New/Put, LoadingCache loaders, results of repository functions), or the ValidateSchema/CreateFormatReader pair of one FileFormat; " +
 			"K4 every call of an evaluating function of the xpath engine (NodeIterator.MoveNext, Expr.Evaluate, ...; closed classification of the xpath API used) must be covered by a deferred recover on every call chain from the entry points; " +
